@@ -285,7 +285,7 @@ Definition body_of (d : edecl) (vf : fields) : wbody :=
   match ebody d with
   | BEmpty => WNone
   | BObject attrs => WObj (filter (fun kv => mem (fst kv) attrs) vf)
-  | BAttr _ => WWhole vf
+  | BAttr a => WVal (opt_default (lookup a vf))
   | BValue => WVal (opt_default (lookup "" vf))
   end.
 
@@ -413,7 +413,8 @@ Definition maps_all (d : edecl) (vf : fields) : Prop :=
   match ebody d with
   | BEmpty => forall k, lookup k vf <> None -> is_hdr (ehdrs d) k = true
   | BObject attrs => forall k, lookup k vf <> None -> is_hdr (ehdrs d) k = true \/ mem k attrs = true
-  | BAttr _ => False
+  | BAttr a => lookup a vf <> None /\
+               forall k, lookup k vf <> None -> is_hdr (ehdrs d) k = true \/ k = a
   | BValue => (exists v, vf = [("", v)]) /\ ehdrs d = []
   end.
 
@@ -480,7 +481,16 @@ Section RoundTrip.
         destruct (lookup k vf) eqn:Ek; [|reflexivity].
         assert (Hk : lookup k vf <> None) by (rewrite Ek; discriminate).
         destruct (Hm k Hk) as [H|H]; [rewrite H in E|rewrite H in Em]; discriminate.
-    - destruct Hm.
+    - destruct Hm as [Ha Hm]. destruct (lookup a vf) as [v|] eqn:Ea; [|exfalso; apply Ha; reflexivity].
+      simpl. eexists. split; [reflexivity|]. intro k. rewrite lookup_app, lookup_hf. simpl.
+      destruct (String.eqb k a) eqn:Eka.
+      + apply String.eqb_eq in Eka. subst k. rewrite Ea. destruct (is_hdr (ehdrs d) a); reflexivity.
+      + destruct (is_hdr (ehdrs d) k) eqn:E.
+        * destruct (lookup k vf); reflexivity.
+        * destruct (lookup k vf) eqn:Ek; [|reflexivity].
+          assert (Hk : lookup k vf <> None) by (rewrite Ek; discriminate).
+          destruct (Hm k Hk) as [H|H]; [rewrite H in E; discriminate|].
+          subst k. rewrite String.eqb_refl in Eka. discriminate.
     - destruct Hm as [[v ->] Hh]. rewrite Hh. simpl. eexists. split; [reflexivity|]. intro k. reflexivity.
   Qed.
 
@@ -514,7 +524,7 @@ Definition wire_safe_err (hw : string -> string) (d : edecl) (vf : fields) : Pro
 
 (* the response mapping of the row is well formed for the value: distinct header names,
    none of them goa-error, required header attributes are set, every set attribute is
-   mapped to a header or to the body, and the body is not Body("attribute") *)
+   mapped to a header or to the body (for Body("attribute"): that attribute is set) *)
 Definition well_mapped (d : edecl) (vf : fields) : Prop :=
   NoDup (map hname (ehdrs d)) /\ ~ In goa_error_header (map hname (ehdrs d)) /\
   (forall h, In h (ehdrs d) -> hreq h = true -> lookup (hattr h) vf <> None) /\
